@@ -18,7 +18,9 @@ from vlib import Leg, run_worker
 WS = {
     "w1": ["deep/er/x.lua", "imp.lua", "lib/lib.lua", "main.lua", "sub/ann.lua", "sub/ann2.lua", "syn.lua"],
     "w2": ["c++/lib2.lua", "c+v/inc.lua", "common/test.lua", "one.lua", "port/off.lua", "port/on_a.lua", "port/on_b.lua", "tests/t1.lua"],
-    "w3": ["calls/ptype.lua", "rets.lua", "top.lua"],     # types 10 and 24 side by side (+ 2, 4, 9, 15, 16)
+    # types 10 and 24 side by side (+ 2, 4, 9, 15, 16), also on the SAME call: wrong argument count with mismatching
+    # argument types (function `miscounts`: only the count is reported, so nothing may show there once 10 is off)
+    "w3": ["calls/ptype.lua", "rets.lua", "top.lua"],
 }
 # leg c17.live only (clean.lua has no diagnostic on disk; c17.sites needs a diagnostic in every file)
 WS_LIVE = {
